@@ -326,4 +326,173 @@ def run_visit_guard(ctx: Ctx) -> RuleResult:
     if not ok:
         res.finding(ocm or ftp.qual, ocm.node if ocm else ftp.node, 'ForestToParseTree.on_cycle no longer starts a retreat', construct='retreat',
                     module=ftp.module)
+    # "visited successfully" marks are consumed by the node they were set for: a node can be reached again (shared
+    # sub-forest, a nullable rule derived twice at one position), and a stale mark makes `resolve` discard all its
+    # packed children on the second visit.  Every transform_* that is gated by the mark removes it.
+    from ..exprs import find_pat
+    marks = set()
+    for m in ftp.methods.values():
+        for c, b_ in find_pat(m.body_nodes(), '$me.$attr.add(id($n.parent))'):
+            marks.add(b_['attr'])
+    n_gate = 0
+    for attr in sorted(marks):
+        for m in ftp.methods.values():
+            gate = find_pat(m.body_nodes(), 'if id($n) not in $me.%s:\n    return Discard' % attr)
+            if not gate:
+                continue
+            n_gate += 1
+            node_var = gate[0][1]['n']
+            rem = [st for st in m.node.body if isinstance(st, ast.Expr) and (
+                find_pat([st.value], '$me.%s.remove(id($n))' % attr, {'n': node_var})
+                or find_pat([st.value], '$me.%s.discard(id($n))' % attr, {'n': node_var}))]
+            ok = len(rem) == 1
+            if ok:
+                before = m.node.body[:m.node.body.index(rem[0])]
+                # only guards (if ...: return) and plain assignments may precede the removal
+                ok = all(isinstance(st, (ast.If, ast.Assign)) or (isinstance(st, ast.Expr) and isinstance(st.value, ast.Constant)) for st in before) \
+                    and all(all(isinstance(b, ast.Return) for b in st.body) and not st.orelse for st in before if isinstance(st, ast.If))
+            res.ob('%s %s' % (m.loc(), m.qual), 'the success mark of the node is removed once the node is transformed (self.%s)' % attr, ok)
+            if not ok:
+                res.finding(m, m.node, '%s is gated by the success mark self.%s but does not remove it on the way out: when the same node is '
+                            'transformed again its packed children are all discarded (resolve mode) -- IndexError / missing subtree for '
+                            'forests that share the node' % (m.name, attr), construct='mark-not-consumed:' + m.name)
+    res.require_instances(n_gate, 2, 'transform functions gated by the success mark')
+    return res
+
+
+# ------------------------------------------------------------------------------------------------
+def run_sentinel(ctx: Ctx) -> RuleResult:
+    """R-SENTINEL-SLOTS [C03 C04]: a slot that is initialised to a dedicated "nothing here" sentinel object holds
+    arbitrary values otherwise (results of user callbacks: None placeholders, 0, '', empty lists are all legitimate
+    children).  The only value test allowed on such a slot is identity with the sentinel; a truth test, a
+    comparison with None or an equality test drops or merges legitimate children."""
+    from ..exprs import in_bool_context
+    repo = ctx.repo
+    typer = ctx.typer
+    res = RuleResult('R-SENTINEL-SLOTS', 'slots guarded by a sentinel object are only tested by identity with that sentinel')
+    n_tests = 0
+    n_slots = 0
+    for k in repo.classes.values():
+        if not k.module.name.startswith('lark.parsers.earley') and k.module.name != 'lark.parse_tree_builder':
+            continue
+        # sentinel: class attribute bound to an instance of a nested, field-less class
+        sentinels = set()
+        for n in k.node.body:
+            if isinstance(n, ast.Assign) and len(n.targets) == 1 and isinstance(n.targets[0], ast.Name) and isinstance(n.value, ast.Call) \
+                    and isinstance(n.value.func, ast.Name) and not n.value.args \
+                    and any(isinstance(c, ast.ClassDef) and c.name == n.value.func.id for c in k.node.body):
+                sentinels.add(n.targets[0].id)
+        init = k.methods.get('__init__')
+        if not sentinels or init is None:
+            continue
+        sn = init.self_name()
+        slots = set()
+        for n in init.body_nodes():
+            if isinstance(n, ast.Assign) and len(n.targets) == 1 and isinstance(n.targets[0], ast.Attribute) \
+                    and isinstance(n.targets[0].value, ast.Name) and n.targets[0].value.id == sn \
+                    and isinstance(n.value, ast.Attribute) and n.value.attr in sentinels:
+                slots.add(n.targets[0].attr)
+        if not slots:
+            continue
+        n_slots += len(slots)
+        want_t = 'C:' + k.qual
+        for f in repo.functions.values():
+            if f.module is not k.module:
+                continue
+            env = None
+            for n in f.body_nodes():
+                if not (isinstance(n, ast.Attribute) and n.attr in slots and isinstance(n.ctx, ast.Load)):
+                    continue
+                if env is None:
+                    env = typer.env(f)
+                if want_t not in typer.expr(f, n.value, env):
+                    continue
+                p = parent(n)
+                site = '%s %s' % (f.module.loc(n), f.qual)
+                if isinstance(p, ast.Compare):
+                    n_tests += 1
+                    others = [p.left] + list(p.comparators)
+                    others = [o for o in others if o is not n]
+                    ok = all(isinstance(o_, (ast.Is, ast.IsNot)) for o_ in p.ops) and len(others) == 1 \
+                        and isinstance(others[0], ast.Attribute) and others[0].attr in sentinels
+                    res.ob(site, 'slot %s.%s is compared by identity with the sentinel (%s)' % (k.name, n.attr, norm(p)), ok)
+                    if not ok:
+                        res.finding(f, p, 'the slot %s.%s holds arbitrary child values (None placeholders, falsy callback results); testing it '
+                                    'with `%s` treats a legitimate value as "no data" and drops it from the children' % (k.name, n.attr, norm(p)),
+                                    construct='slot-test:%s.%s:%s' % (k.name, n.attr, _shape_of_test(p, n)))
+                elif in_bool_context(n):
+                    n_tests += 1
+                    res.ob(site, 'slot %s.%s is not tested for truth' % (k.name, n.attr), False)
+                    res.finding(f, enclosing_stmt(n), 'the slot %s.%s holds arbitrary child values; a truth test drops falsy children '
+                                '(None placeholders, 0, empty strings)' % (k.name, n.attr), construct='slot-truth:%s.%s' % (k.name, n.attr))
+    res.require_instances(n_slots, 2, 'sentinel-guarded slots')
+    res.require_instances(n_tests, 2, 'tests on sentinel-guarded slots')
+    return res
+
+
+def _shape_of_test(cmp: ast.Compare, slot: ast.AST) -> str:
+    ops = ','.join(type(o).__name__ for o in cmp.ops)
+    others = [norm(o) for o in [cmp.left] + list(cmp.comparators) if o is not slot]
+    return '%s:%s' % (ops, '|'.join(others))
+
+
+# ------------------------------------------------------------------------------------------------
+_MUTATORS = {'remove', 'discard', 'pop', 'clear', 'add', 'update', 'difference_update', 'intersection_update',
+             'append', 'extend', 'insert', 'popitem', 'setdefault', 'sort', 'reverse'}
+
+
+def run_scan_buffer(ctx: Ctx) -> RuleResult:
+    """R-SCAN-BUFFER [C04 C20]: the Earley scanners treat the scan buffer they are given as read-only, and the dynamic
+    scanner carries *every* item of it over ignored text.  An item whose terminal matched at position i must still be
+    retried after an ignored stretch starting at i (its terminal may also match there: /\\s?b/ with %ignore " "), so
+    consuming the buffer in the matching pass loses derivations (upstream issue #768)."""
+    from ..exprs import find_pat
+    repo = ctx.repo
+    res = RuleResult('R-SCAN-BUFFER', 'the scan buffer is read-only in the scanners; all of it is carried over ignored text')
+    n = 0
+    for fq in ('lark.parsers.earley:Parser._parse.scan', 'lark.parsers.xearley:Parser._parse.scan'):
+        f = repo.func(fq)
+        ps = f.positional_names()
+        cands = [p for p in ps if p == 'to_scan'] or ps[-1:]
+        if not cands:
+            raise AnalysisError('%s has no scan-buffer parameter (anchor vanished)' % fq)
+        buf = cands[0]
+        # the parameter holding the buffer: the one the callers bind the scan buffer to (last positional parameter)
+        if buf != ps[-1]:
+            raise AnalysisError('%s: scan buffer parameter is not the last positional parameter' % fq)
+        muts = []
+        for x in f.body_nodes():
+            if isinstance(x, ast.Call) and isinstance(x.func, ast.Attribute) and isinstance(x.func.value, ast.Name) \
+                    and x.func.value.id == buf and x.func.attr in _MUTATORS:
+                muts.append(x)
+            if isinstance(x, ast.AugAssign) and isinstance(x.target, ast.Name) and x.target.id == buf:
+                muts.append(x)
+            if isinstance(x, ast.Delete) and any(buf in norm(t) for t in x.targets):
+                muts.append(x)
+            if isinstance(x, ast.Assign) and any(isinstance(t, ast.Name) and t.id == buf for t in x.targets):
+                muts.append(x)
+        n += 1
+        ok = not muts
+        res.ob('%s %s' % (f.loc(), f.qual), 'the scan buffer `%s` is only read' % buf, ok)
+        for m in muts:
+            res.finding(f, m, 'the scanner modifies the scan buffer it was given (`%s`): items removed in the matching pass are neither '
+                        'carried over ignored text nor reported as considered when the scan fails -- derivations that need the retry '
+                        'after the ignored stretch are lost' % norm(m), construct='scan-buffer-mutated:' + (
+                            m.func.attr if isinstance(m, ast.Call) else type(m).__name__))
+    x = repo.func('lark.parsers.xearley:Parser._parse.scan')
+    buf = x.positional_names()[-1]
+    carry = find_pat(x.body_nodes(), '$dm[$$k].extend([($it, $$i, None) for $it in $buf])', {'buf': buf})
+    ok = False
+    for c, b_ in carry:
+        # inside `for <ig> in self.ignore: m = match(<ig>, ...); if m:` and keyed by the end of the ignored match
+        loop = next((a for a in ancestors(c) if isinstance(a, ast.For)), None)
+        cond = next((a for a in ancestors(c) if isinstance(a, ast.If)), None)
+        if loop is not None and norm(loop.iter).endswith('.ignore') and cond is not None and isinstance(cond.test, ast.Name) \
+                and b_['$$k'] == '%s.end()' % cond.test.id:
+            ok = True
+    n += 1
+    res.ob('%s %s' % (x.loc(), x.qual), 'every item of the scan buffer is carried over an ignored match (to the end of that match)', ok)
+    if not ok:
+        res.finding(x, x.node, 'the dynamic scanner does not carry the whole scan buffer over ignored text', construct='carry-over')
+    res.require_instances(n, 3, 'scan-buffer obligations')
     return res
